@@ -129,4 +129,88 @@ theorem mergeTop_get (dk : Str) (out : Kvs) (t : Str) (v : V) (q : Str) (ht : ou
       · have hh' : (Kvs.cons k w rest).has q = false := by simpa using hh
         simp [hh', hq, Kvs.get_of_not_has _ _ hh']
 
+theorem Kvs.append_cons_ne (a : Kvs) (k : Str) (v : V) : (a.append (.cons k v .nil)) ≠ .nil := by
+  cases a <;> simp [Kvs.append]
+
+theorem merge_truthy (dk : Str) (a b : V) (h : a.falsy = false) : (merge dk a b).falsy = false := by
+  cases a with
+  | none => simp [V.falsy] at h
+  | str s =>
+    cases s with
+    | nil => simp [V.falsy] at h
+    | cons c cs =>
+      cases b with
+      | none => simp [merge, V.falsy]
+      | str t =>
+        cases t with
+        | nil => simp [merge, V.falsy]
+        | cons d ds =>
+          by_cases hi : isInfix dk (d :: ds) = true <;> simp [merge, V.falsy, hi]
+      | dict kb =>
+        cases kb with
+        | nil => simp [merge, V.falsy]
+        | cons k v rest =>
+          by_cases hh : (Kvs.cons k v rest).has dk = true <;> simp [merge, V.falsy, hh]
+  | dict ka =>
+    cases ka with
+    | nil => simp [V.falsy] at h
+    | cons k v rest =>
+      cases b with
+      | none => simp [merge, V.falsy]
+      | str t =>
+        cases t with
+        | nil => simp [merge, V.falsy]
+        | cons d ds =>
+          by_cases hh : (Kvs.cons k v rest).has dk = true <;>
+            simp [merge, V.falsy, hh, Kvs.mergeNone, Kvs.append]
+      | dict kb =>
+        cases kb with
+        | nil => simp [merge, V.falsy]
+        | cons k' v' rest' => simp [merge, V.falsy, mergeKvs, Kvs.append]
+
+theorem mergeKvs_allTruthy (dk : Str) : ∀ (ka kb : Kvs), ka.allTruthy = true → (mergeKvs dk ka kb).allTruthy = true
+  | .nil, _, _ => by simp [mergeKvs, Kvs.allTruthy]
+  | .cons k v rest, kb, h => by
+    simp only [Kvs.allTruthy, Bool.and_eq_true, Bool.not_eq_true'] at h
+    simp only [mergeKvs, Kvs.allTruthy, Bool.and_eq_true, Bool.not_eq_true']
+    exact ⟨merge_truthy dk v _ h.1, mergeKvs_allTruthy dk rest kb h.2⟩
+
+theorem Kvs.append_allTruthy : ∀ (a b : Kvs), a.allTruthy = true → b.allTruthy = true → (a.append b).allTruthy = true
+  | .nil, b, _, hb => by simpa [Kvs.append] using hb
+  | .cons k v rest, b, ha, hb => by
+    simp only [Kvs.allTruthy, Bool.and_eq_true, Bool.not_eq_true'] at ha
+    simp only [Kvs.append, Kvs.allTruthy, Bool.and_eq_true, Bool.not_eq_true']
+    exact ⟨ha.1, Kvs.append_allTruthy rest b ha.2 hb⟩
+
+theorem Kvs.set_allTruthy : ∀ (m : Kvs) (t : Str) (w : V), m.allTruthy = true → w.falsy = false → (m.set t w).allTruthy = true
+  | .nil, t, w, _, hw => by simp [Kvs.set, Kvs.allTruthy, hw]
+  | .cons k v rest, t, w, hm, hw => by
+    simp only [Kvs.allTruthy, Bool.and_eq_true, Bool.not_eq_true'] at hm
+    by_cases h : t = k
+    · simp [Kvs.set, h, Kvs.allTruthy, hw, hm.2]
+    · simp only [Kvs.set, h, if_false, Kvs.allTruthy, Bool.and_eq_true, Bool.not_eq_true']
+      exact ⟨hm.1, Kvs.set_allTruthy rest t w hm.2 hw⟩
+
+theorem mergeTop_allTruthy (dk : Str) (out : Kvs) (t : Str) (v : V) (ho : out.allTruthy = true) (hv : v.falsy = false) :
+    (mergeTop dk out t v).allTruthy = true := by
+  cases out with
+  | nil => simp [mergeTop, merge, V.asKvs, Kvs.allTruthy, hv]
+  | cons k w rest =>
+    have hm : mergeTop dk (Kvs.cons k w rest) t v =
+        (mergeKvs dk (Kvs.cons k w rest) (Kvs.cons t v .nil)).append ((Kvs.cons t v .nil).without (Kvs.cons k w rest)) := by
+      simp [mergeTop, merge, V.falsy, V.asKvs]
+    rw [hm]
+    apply Kvs.append_allTruthy _ _ (mergeKvs_allTruthy dk _ _ ho)
+    by_cases hh : (Kvs.cons k w rest).has t = true
+    · simp [Kvs.without, hh, Kvs.allTruthy]
+    · have hh' : (Kvs.cons k w rest).has t = false := by simpa using hh
+      simp [Kvs.without, hh', Kvs.allTruthy, hv]
+
+theorem nest_truthy : ∀ (ts : List Str) (val : Str), val ≠ [] → (nest ts val).falsy = false
+  | [], val, h => by
+    cases val with
+    | nil => exact absurd rfl h
+    | cons c cs => simp [nest, V.falsy]
+  | t :: ts, val, _ => by simp [nest, V.falsy]
+
 end Pyxv.Headers
